@@ -166,6 +166,11 @@ func execSeq(t *testing.T, w WL, cfg simrt.Config) simh.Outcome {
 				var err error
 				switch w.Driver {
 				case "paths":
+					if w.MemHuge {
+						// a caller-supplied descent filter that lets everything through: same paths, and the helper
+						// still has to keep out of cycles by itself
+						plan.DescentFilter = func(*ops.TraversalContext, *graph.PathSegment) bool { return true }
+					}
 					paths, err = ops.TraversePaths(tx, plan)
 				case "nodes":
 					var nf ops.NodeFilter
